@@ -293,6 +293,11 @@ func genC11Displace(r *Rand, tier, profile string) *Case {
 			}
 		}
 	}
+	if r.Bool(0.3) {
+		// the newest session leaves again while its predecessors are still connected: at their next
+		// keep-alive exchange the client identifier resolves to nothing, and they end all the same
+		ts = append(ts, tstep{t + int64(r.Range(300, 3000)), Step{K: "pkt", C: chain, S: "disconnect"}})
+	}
 	t += 9500
 	ts = append(ts, tstep{t, Step{K: "settle"}})
 	t += settleDur + 20
